@@ -221,7 +221,10 @@ func init() {
 				return c.P("C02")
 			}(), Prop: "C02", Load: true}), pick(tier, 5, 7), 1),
 		}
-	}, acceptProps("C02", "C17"))
+	}, func(f *wx.Failure, _ string) bool {
+		// how many entities a batch removal / creation reports is part of "alive = creations minus removals"
+		return f.Prop == "" || f.Prop == "C02" || f.Prop == "C17" || strings.HasPrefix(f.Sig, "batch-count:Batch.RemoveEntities") || strings.HasPrefix(f.Sig, "created-count")
+	})
 
 	// ------------------------------------------------------------------ C03 queries
 	wxCheck("C03", 75, 900, func(tier string) []runner.Job {
